@@ -160,7 +160,11 @@ def base_twopeak(ctx):
     return max(1 - 8 * abs(u - 0.2), 0.8 - 3 * abs(u - 0.75), -1.0)
 
 
-BASES = {"zero": base_zero, "neg": base_neg, "alt": base_alt, "peak": base_peak, "negpeak": base_negpeak,
+def base_bigpeak(ctx):
+    return 50.0 * (1 - 2 * abs(_x0(ctx) - 0.3))
+
+
+BASES = {"bigpeak": base_bigpeak, "zero": base_zero, "neg": base_neg, "alt": base_alt, "peak": base_peak, "negpeak": base_negpeak,
          "twopeak": base_twopeak}
 
 
